@@ -379,7 +379,11 @@ def check_classsel(ctx: Ctx):
     # one layout per result: the fragment has no condition on loop-variant values other than the candidate's class
     variant = {dv}
     conds = [s.test for s in ast.walk(lp) if isinstance(s, ast.If)]
-    dep = [c for c in conds if names_in(c) & variant and not U(c).endswith(f"!= {dv}.__class__")]
+    def _class_test(c):
+        cp = compare_parts(c)
+        return cp is not None and isinstance(cp[1], (ast.Eq, ast.NotEq, ast.Is, ast.IsNot)) and any(U(x) in (f"{dv}.__class__", f"type({dv})") for x in (cp[0], cp[2]))
+
+    dep = [c for c in conds if names_in(c) & variant and not _class_test(c)]
     ctx.decide(not dep, "CLASSSEL", site + ":uniform", (fi, lp), "no branch depends on an individual candidate: all results of one call share one class and data layout",
                f"class selection depends on the individual candidate: `{U(dep[0]) if dep else ''}`")
 
